@@ -10,6 +10,24 @@ import os
 from .core import AnalysisError
 
 
+def static_test(test):
+    """Statically known module-level tests: Python-2 compatibility branches
+    (`sys.version_info[0] == 2`, `< 3`, `>= (3, x)`).  True/False/None."""
+    try:
+        t = ast.unparse(test).replace(" ", "")
+    except Exception:
+        return None
+    if "sys.version_info" not in t:
+        return None
+    try:
+        code = compile(ast.Expression(test), "<static>", "eval")
+        class _S(object):
+            version_info = (3, 12, 1, "final", 0)
+        return bool(eval(code, {"__builtins__": {}}, {"sys": _S}))
+    except Exception:
+        return None
+
+
 class Module(object):
     def __init__(self, name, path, src):
         self.name = name            # dotted, e.g. Crypto.Cipher._mode_gcm
@@ -47,7 +65,14 @@ class Module(object):
                     visit(st.body, q + ".", in_func)
                 elif isinstance(st, (ast.If, ast.Try, ast.With, ast.For,
                                      ast.While)):
-                    for fld in ("body", "orelse", "finalbody"):
+                    flds = ("body", "orelse", "finalbody")
+                    if isinstance(st, ast.If) and not in_func:
+                        tv = static_test(st.test)
+                        if tv is True:
+                            flds = ("body",)
+                        elif tv is False:
+                            flds = ("orelse",)
+                    for fld in flds:
                         visit(getattr(st, fld, []) or [], prefix, in_func)
                     for h in getattr(st, "handlers", []) or []:
                         visit(h.body, prefix, in_func)
@@ -96,7 +121,14 @@ class Module(object):
                             if isinstance(a, ast.Name):
                                 self.top_assign.setdefault(a.id, []).append(b)
             elif isinstance(st, (ast.If, ast.Try)):
-                for fld in ("body", "orelse", "finalbody"):
+                flds = ("body", "orelse", "finalbody")
+                if isinstance(st, ast.If):
+                    tv = static_test(st.test)
+                    if tv is True:
+                        flds = ("body",)
+                    elif tv is False:
+                        flds = ("orelse",)
+                for fld in flds:
                     self._index_top(getattr(st, fld, []) or [])
                 for h in getattr(st, "handlers", []) or []:
                     self._index_top(h.body)
